@@ -326,30 +326,46 @@ impl IVP for SimIVP {
     }
 
     fn event_config(&self, i: usize) -> EventConfig {
-        // built through the public builder methods, the way user code does it (a struct literal
-        // would leave `terminal()`, `positive()`, ... unexercised); even-numbered event functions use
-        // the convenience forms, odd-numbered ones the general setters
+        // built through the public API, the way user code does it (a struct literal would leave
+        // `terminal()`, `positive()`, `Direction::from(int)` ... unexercised): event function i uses
+        // the convenience methods (i % 3 == 0), the general setters with the enum (1), or the
+        // general setters with the documented integer conversion, any positive / negative
+        // integer (2)
         let e = &self.events[i];
         let mut c = EventConfig::new();
-        if i % 2 == 0 {
-            match e.dir {
-                Dir::All => c.all(),
-                Dir::Pos => c.positive(),
-                Dir::Neg => c.negative(),
+        match i % 3 {
+            0 => {
+                match e.dir {
+                    Dir::All => c.all(),
+                    Dir::Pos => c.positive(),
+                    Dir::Neg => c.negative(),
+                }
+                match e.terminal {
+                    Some(1) => c.terminal(),
+                    Some(n) => c.terminal_count(n),
+                    None => {}
+                }
             }
-            match e.terminal {
-                Some(1) => c.terminal(),
-                Some(n) => c.terminal_count(n),
-                None => {}
+            1 => {
+                c.direction(match e.dir {
+                    Dir::All => Direction::All,
+                    Dir::Pos => Direction::Positive,
+                    Dir::Neg => Direction::Negative,
+                });
+                if let Some(n) = e.terminal {
+                    c.terminal_count(n);
+                }
             }
-        } else {
-            c.direction(match e.dir {
-                Dir::All => Direction::All,
-                Dir::Pos => Direction::Positive,
-                Dir::Neg => Direction::Negative,
-            });
-            if let Some(n) = e.terminal {
-                c.terminal_count(n);
+            _ => {
+                let k = [2i32, 7, i32::MAX, 1][(i / 3) % 4];
+                c.direction(Direction::from(match e.dir {
+                    Dir::All => 0,
+                    Dir::Pos => k,
+                    Dir::Neg => -k,
+                }));
+                if let Some(n) = e.terminal {
+                    c.terminal_count(n);
+                }
             }
         }
         c
